@@ -1,6 +1,7 @@
 import Rpcx.Driver.Util
 import Rpcx.Driver.Header
 import Rpcx.Driver.Wire
+import Rpcx.Driver.Breaker
 /-
   Line-protocol driver: one operation per input line, one canonical output line per
   operation.  Runs the executable definitions of the model (generated and hand-written);
@@ -15,6 +16,7 @@ def step (line : String) : String :=
   | "enc" :: ws => cmdEnc ws
   | "dec" :: ws => cmdDec ws
   | "decall" :: ws => cmdDecAll ws
+  | "brk" :: ws => cmdBrk ws
   | _ => "bad-op"
 
 partial def loop (hin : IO.FS.Stream) (hout : IO.FS.Stream) : IO Unit := do
